@@ -153,6 +153,8 @@ type SUT[K, V any] interface {
 	Gen() int
 	Walk() tree.VerifTree[K, V]
 	IsSet() bool
+	// Raw returns a pointer to the underlying tree.Map / tree.Set value (for reachability scans).
+	Raw() any
 }
 
 type mapSUT[K, V any] struct{ m tree.Map[K, V] }
@@ -170,6 +172,7 @@ func (s mapSUT[K, V]) Last() (K, V)               { return s.m.Last() }
 func (s mapSUT[K, V]) Shape() (int, int)          { return s.m.VerifShape() }
 func (s mapSUT[K, V]) Gen() int                   { return s.m.VerifGen() }
 func (s mapSUT[K, V]) IsSet() bool                { return false }
+func (s mapSUT[K, V]) Raw() any                   { m := s.m; return &m }
 func (s mapSUT[K, V]) Walk() tree.VerifTree[K, V] { return s.m.VerifWalk() }
 func (s mapSUT[K, V]) Copy() SUT[K, V] {
 	m2 := s.m // a copy of the Map value
@@ -203,6 +206,7 @@ func (s setSUT[K]) Last() (K, struct{})               { return s.s.Last(), struc
 func (s setSUT[K]) Shape() (int, int)                 { return s.s.VerifShape() }
 func (s setSUT[K]) Gen() int                          { return s.s.VerifGen() }
 func (s setSUT[K]) IsSet() bool                       { return true }
+func (s setSUT[K]) Raw() any                          { x := s.s; return &x }
 func (s setSUT[K]) Walk() tree.VerifTree[K, struct{}] { return s.s.VerifWalk() }
 func (s setSUT[K]) Copy() SUT[K, struct{}] {
 	s2 := s.s
